@@ -487,6 +487,12 @@ impl DictionaryCompressor {
                     return Err(ZiporaError::invalid_data("Invalid back-reference offset"));
                 }
 
+                if length > crate::entropy::MAX_DECOMPRESSED_SIZE.saturating_sub(result.len()) {
+                    return Err(ZiporaError::invalid_data(
+                        "Match length exceeds the decompressed size limit",
+                    ));
+                }
+
                 let start_pos = result.len() - offset as usize;
 
                 // Handle potential overlapping copies by copying byte by byte
@@ -797,6 +803,12 @@ impl OptimizedDictionaryCompressor {
 
                 if offset == 0 || result.len() < offset as usize {
                     return Err(ZiporaError::invalid_data("Invalid back-reference offset"));
+                }
+
+                if length > crate::entropy::MAX_DECOMPRESSED_SIZE.saturating_sub(result.len()) {
+                    return Err(ZiporaError::invalid_data(
+                        "Match length exceeds the decompressed size limit",
+                    ));
                 }
 
                 let start_pos = result.len() - offset as usize;
